@@ -400,6 +400,7 @@ def run(ck):
     ck.floor("C07-REQ", 3)
     mtcommon.check_order(ck, prog, CFG, "C07-ORDER")
     mtcommon.check_wait(ck, prog, CFG, "C07-WAIT")
+    mtcommon.check_waitpred(ck, prog, CFG, "C07-WAIT")
     ck.floor("C07-WAIT", 8)
     mtcommon.check_end(ck, prog, CFG, "C07-END")
     mtcommon.check_stop_ack(ck, prog, CFG, "C07-STOPACK")
